@@ -559,6 +559,13 @@ class EndpointResponseHandlerGenerator:
         context.add_import(f"{context.core_package_name}.exceptions", "HTTPError")
         writer.write_line(f'raise HTTPError(response=response, message="{message}", status_code=response.status_code)')
 
+    def _is_ndjson_stream(self, strategy: ResponseStrategy) -> bool:
+        """True for an application/x-ndjson stream (server-sent event streams keep the SSE parser)."""
+        response_ir = strategy.response_ir
+        if response_ir is None or response_ir.stream_format != "ndjson":
+            return False
+        return not any("event-stream" in content_type for content_type in response_ir.content)
+
     def _write_strategy_based_return(
         self,
         writer: CodeWriter,
@@ -577,6 +584,19 @@ class EndpointResponseHandlerGenerator:
                 writer.write_line("async for chunk in iter_bytes(response):")
                 writer.indent()
                 writer.write_line("yield chunk")
+                writer.dedent()
+                writer.write_line("return  # Explicit return for async generator")
+            elif self._is_ndjson_stream(strategy):
+                # Newline-delimited JSON: one item per line
+                item_type = strategy.return_type[len("AsyncIterator[") : -1]
+                context.add_import(f"{context.core_package_name}.streaming_helpers", "iter_ndjson")
+                writer.write_line("async for item in iter_ndjson(response):")
+                writer.indent()
+                if self._should_use_cattrs_structure(item_type):
+                    self._register_cattrs_import(context)
+                    writer.write_line(f"yield {self._get_cattrs_deserialization_code(item_type, 'item')}")
+                else:
+                    writer.write_line("yield item")
                 writer.dedent()
                 writer.write_line("return  # Explicit return for async generator")
             else:
